@@ -653,6 +653,20 @@ class Engine:
             if len(a.x) != len(b.x):
                 return z3.BoolVal(False)
             return z3.And(*[self.eq(st, x, y) for x, y in zip(a.x, b.x)]) if a.x else z3.BoolVal(True)
+        if (a.k == "tuple") != (b.k == "tuple"):
+            tup, other = (a, b) if a.k == "tuple" else (b, a)
+            if other.k in ("val", "list"):
+                # a tuple display equals a dynamic value iff that value is a tuple object with equal elements
+                ov = box(other)
+                r = Val.rv(ov)
+                items = [box(x) if x.k != "tuple" else None for x in tup.x]
+                if all(i is not None for i in items):
+                    sq = z3.Empty(SeqV)
+                    if items:
+                        units = [z3.Unit(i) for i in items]
+                        sq = units[0] if len(units) == 1 else z3.Concat(*units)
+                    return z3.And(Val.is_RefV(ov), clsof(r) == self.ct.id("tuple"), self.hget(st, "$seq", r) == sq)
+            return z3.BoolVal(False)
         if a.k == "list" and b.k == "list":
             return self.seq_of(st, a) == self.seq_of(st, b)
         if a.k in ("list", "seq") and b.k in ("list", "seq"):
